@@ -6,24 +6,31 @@ use super::*;
 pub enum SeekFrom { Start(u64), End(i64), Current(i64) }
 
 // std::io::Read with ghost bookkeeping:
+//   rest()      the bytes the stream will still deliver (a stream is modelled as a fixed byte sequence;
+//               an I/O error other than end-of-data is not modelled separately: it takes the same `?` path as EOF)
 //   consumed()  every byte the stream has delivered so far, in order (concatenation of each buf[..n])
-//   hit_eof()   sticky: some read found fewer bytes than it needed
+//   hit_eof()   sticky: some exact read found fewer bytes than it needed
 //   inv()       implementor's representation invariant
-// `read` is the only required method (as in std); read_exact / by_ref are std's provided methods and are
-// ASSUMED to be what std documents: read_exact = repeated `read` until the buffer is full, an early end
-// of stream giving Err(UnexpectedEof).  Fragmentation (how many bytes each `read` returns) therefore
-// does not appear in read_exact's contract at all.
+// `read` is the only required method (as in std); read_exact / by_ref / the byteorder readers are std's /
+// byteorder's provided methods and are ASSUMED to be what their docs say: read_exact = repeated `read` until
+// the buffer is full, an early end of stream giving Err(UnexpectedEof).  Fragmentation (how many bytes
+// each `read` returns) therefore does not appear in their contracts at all.
 pub trait Read: Sized {
+	spec fn rest(&self) -> Seq<u8>;
 	spec fn consumed(&self) -> Seq<u8>;
 	spec fn hit_eof(&self) -> bool;
 	spec fn inv(&self) -> bool;
 
+	// one raw read: delivers SOME prefix of what remains (0 < k <= min(len, rest) unless nothing remains / len == 0)
 	fn read(&mut self, buf: &mut [u8]) -> (res: std::result::Result<usize, IoError>)
 		requires (*old(self)).inv(),
 		ensures (*final(self)).inv(),
 			final(buf)@.len() == old(buf)@.len(),
-			res is Ok ==> res->Ok_0 <= final(buf)@.len() && (*final(self)).consumed() == (*old(self)).consumed() + final(buf)@.subrange(0, res->Ok_0 as int),
-			res is Err ==> (*final(self)).consumed() == (*old(self)).consumed(),
+			res is Ok ==> res->Ok_0 <= final(buf)@.len() && res->Ok_0 <= (*old(self)).rest().len()
+				&& final(buf)@.subrange(0, res->Ok_0 as int) == (*old(self)).rest().subrange(0, res->Ok_0 as int)
+				&& (*final(self)).consumed() == (*old(self)).consumed() + final(buf)@.subrange(0, res->Ok_0 as int)
+				&& (*final(self)).rest() == skip((*old(self)).rest(), res->Ok_0 as int),
+			res is Err ==> (*final(self)).consumed() == (*old(self)).consumed() && (*final(self)).rest() == (*old(self)).rest(),
 			(*old(self)).hit_eof() ==> (*final(self)).hit_eof();
 
 	#[verifier::external_body]
@@ -31,19 +38,44 @@ pub trait Read: Sized {
 		requires (*old(self)).inv(),
 		ensures (*final(self)).inv(),
 			final(buf)@.len() == old(buf)@.len(),
-			res is Ok ==> (*final(self)).consumed() == (*old(self)).consumed() + final(buf)@,
-			res is Ok ==> (*final(self)).hit_eof() == (*old(self)).hit_eof(),
-			res is Err ==> (*old(self)).consumed().is_prefix_of((*final(self)).consumed()),
-			(*old(self)).hit_eof() ==> (*final(self)).hit_eof(),
+			(*old(self)).rest().len() >= old(buf)@.len() ==> res is Ok
+				&& final(buf)@ == (*old(self)).rest().subrange(0, old(buf)@.len() as int)
+				&& (*final(self)).rest() == skip((*old(self)).rest(), old(buf)@.len() as int)
+				&& (*final(self)).consumed() == (*old(self)).consumed() + final(buf)@
+				&& (*final(self)).hit_eof() == (*old(self)).hit_eof(),
+			(*old(self)).rest().len() < old(buf)@.len() ==> res is Err && (*final(self)).hit_eof(),
 	{ unimplemented!() }
 
 	fn by_ref(&mut self) -> (r: &mut Self)
 		ensures *r == *old(self), *final(r) == *final(self)
 	{ self }
+
+	// byteorder::ReadBytesExt on a stream = read_exact of the width + big-endian decode
+	#[verifier::external_body]
+	fn read_u8(&mut self) -> (res: std::result::Result<u8, IoError>)
+		requires (*old(self)).inv(),
+		ensures (*final(self)).inv(),
+			(*old(self)).rest().len() >= 1 ==> res is Ok && res->Ok_0 == be_u8((*old(self)).rest(), 0)
+				&& (*final(self)).rest() == skip((*old(self)).rest(), 1)
+				&& (*final(self)).consumed() == (*old(self)).consumed() + (*old(self)).rest().subrange(0, 1)
+				&& (*final(self)).hit_eof() == (*old(self)).hit_eof(),
+			(*old(self)).rest().len() < 1 ==> res is Err && (*final(self)).hit_eof(),
+	{ unimplemented!() }
+	#[verifier::external_body]
+	fn read_u32<B>(&mut self) -> (res: std::result::Result<u32, IoError>)
+		requires (*old(self)).inv(),
+		ensures (*final(self)).inv(),
+			(*old(self)).rest().len() >= 4 ==> res is Ok && res->Ok_0 == be_u32((*old(self)).rest(), 0)
+				&& (*final(self)).rest() == skip((*old(self)).rest(), 4)
+				&& (*final(self)).consumed() == (*old(self)).consumed() + (*old(self)).rest().subrange(0, 4)
+				&& (*final(self)).hit_eof() == (*old(self)).hit_eof(),
+			(*old(self)).rest().len() < 4 ==> res is Err && (*final(self)).hit_eof(),
+	{ unimplemented!() }
 }
 
 // a `&mut R` is itself a reader (std: impl<R: Read + ?Sized> Read for &mut R)
 impl<R: Read> Read for &mut R {
+	open spec fn rest(&self) -> Seq<u8> { (**self).rest() }
 	open spec fn consumed(&self) -> Seq<u8> { (**self).consumed() }
 	open spec fn hit_eof(&self) -> bool { (**self).hit_eof() }
 	open spec fn inv(&self) -> bool { (**self).inv() }
@@ -56,7 +88,9 @@ pub trait Seek: Read {
 	fn seek(&mut self, pos: SeekFrom) -> (res: std::result::Result<u64, IoError>)
 		requires (*old(self)).inv(),
 		ensures (*final(self)).inv(), (*final(self)).consumed() == (*old(self)).consumed(),
-			(*old(self)).hit_eof() ==> (*final(self)).hit_eof();
+			(*old(self)).hit_eof() ==> (*final(self)).hit_eof(),
+			// Seek::seek(Current(k)) moves the position by k with no bounds check (may pass the end)
+			res is Ok && pos is Current && pos->Current_0 >= 0 ==> (*final(self)).rest() == (if pos->Current_0 <= (*old(self)).rest().len() { skip((*old(self)).rest(), pos->Current_0 as int) } else { Seq::<u8>::empty() });
 }
 
 // xxhash_rust::xxh3::Xxh3 (the hash function itself is trusted: xxh3_64 is uninterpreted)
